@@ -2,43 +2,19 @@ package main
 
 import (
 	"fmt"
-	"math/rand"
+	"os"
+	"strings"
 
-	"verif/ops"
+	"verif/eng"
 )
 
-type dbgMon struct{ n int }
-
-func (d *dbgMon) OnStep(w *ops.World, st *ops.Step) {
-	if st.Kind == "begin_block" && st.Post != nil && len(st.Post.Dog.PendingOptOuts) > 0 {
-		fmt.Println("closing block", st.Height, "pending", st.Post.Dog.PendingOptOuts, "steps so far", st.I)
-		for k, dl := range st.Post.Ledger.Delegation {
-			for _, po := range st.Post.Dog.PendingOptOuts {
-				if len(k) > len(po) && k[len(k)-len(po):] == po && dl.UndelegatableShare.IsPositive() {
-					fmt.Println("   delegation", k, dl.UndelegatableShare)
-				}
-			}
-		}
-	}
-}
-
 func main() {
-	for i := 0; i < 12; i++ {
-		seed := int64(1)
-		o := ops.DefaultLedgerOpts()
-		r := rand.New(rand.NewSource(seed*7919 + int64(i)))
-		o.NOps = 2 + r.Intn(4)
-		o.ExtraOps = 1 + r.Intn(3)
-		o.NStakers = 3 + r.Intn(6)
-		o.Steps = 100 + r.Intn(80)
-		o.Unbond = uint32(1 + r.Intn(3))
-		o.Profile = "queues"
-		w, err := ops.BuildLedgerWorld(seed, i, o)
-		if err != nil {
-			panic(err)
+	e, _ := eng.Get("oracle")
+	os.Setenv("VERIF_DEBUG_PANIC", "1")
+	res := e(eng.Job{Prop: "C13", Engine: "oracle", Tier: "quick", Seed: 1, From: 27, To: 28, Verbose: true})
+	for _, v := range res.Stats["C13"].Viol {
+		if strings.Contains(v.Detail, "nil pointer") {
+			fmt.Println(v.Sig, v.Step)
 		}
-		w.Monitors = []ops.Monitor{&dbgMon{}}
-		w.RunLedger(o)
-		fmt.Println("history", i, "steps", len(w.Steps), "target", o.Steps)
 	}
 }
